@@ -589,8 +589,74 @@ fn server_case(ctx: &mut Ctx, l1: usize, l2: usize, n: usize, expect: bool) -> b
     false
 }
 
+/// Both clients declare `n`, which is above both limits: each gets a 400 with its own limit and `n` in full.
+fn big_number_case(ctx: &mut Ctx, l1: usize, l2: usize, n: usize) -> bool {
+    use crate::model::read_all_responses;
+    use crate::sim::{PollOut, Sim};
+    if !ctx.begin() {
+        return false;
+    }
+    ctx.rep.evaluations += 1;
+    let case = J::obj(vec![("family", J::s("server-big")), ("l1", J::u(l1 as u64)), ("l2", J::u(l2 as u64)), ("declared", J::u(n as u64))]);
+    let mut sim = match Sim::new(false, None) {
+        Ok(s) => s,
+        Err(_) => return false,
+    };
+    sim.set_limit(l1);
+    sim.connect(0);
+    sim.poll();
+    sim.set_limit(l2);
+    sim.connect(1);
+    sim.poll();
+    for c in 0..2usize {
+        let req = format!("PUT /c{}g0r0 HTTP/1.1\r\nContent-Length: {}\r\n\r\n", c, n).into_bytes();
+        sim.gens[c].seq = 1;
+        sim.send_bytes(c, &req);
+    }
+    for _ in 0..8 {
+        if sim.poll() == PollOut::Idle {
+            break;
+        }
+    }
+    sim.drain_all();
+    for c in 0..2usize {
+        let limit = if c == 0 { l1 } else { l2 };
+        let g = &sim.gens[c];
+        let (resps, _used, err) = read_all_responses(&g.recv);
+        let text = resps.first().map(|r| String::from_utf8_lossy(&r.body).to_string()).unwrap_or_default();
+        let has = |x: usize| {
+            let d = x.to_string();
+            text.match_indices(&d).any(|(i, _)| {
+                let before = text[..i].chars().last().map(|c| c.is_ascii_digit() || c == '.').unwrap_or(false);
+                let after = text[i + d.len()..].chars().next().map(|c| c.is_ascii_digit() || c == '.').unwrap_or(false);
+                !before && !after
+            })
+        };
+        if err.is_some() || resps.len() != 1 || resps[0].code != 400 || !has(limit) || !has(n) || !g.yielded.is_empty() {
+            ctx.rep.violation(
+                "C04:server:400-text",
+                format!("client {} (limit {} at accept) declared {}: the answer must be one 400 that reports both numbers in full; received {:?}", c, limit, n, show(&g.recv)),
+                case,
+            );
+            return true;
+        }
+    }
+    false
+}
+
 fn server_family(ctx: &mut Ctx) {
     let mut idx = 0u64;
+    // numbers of seven and more digits: the 400 reports them digit for digit, not rounded
+    for (l1, l2, n) in [(51200usize, 4usize, 3_000_000usize), (51200, 1, 1_048_576), (2 << 20, 51200, (2 << 20) + 1), (51200, 5, u32::MAX as usize), (1_048_575, 1_048_576, 1_048_577), (10_000_000, 9_999_999, 10_000_001)] {
+        idx += 1;
+        if !ctx.mine(idx) {
+            continue;
+        }
+        ctx.rep.count("server_cases_with_numbers_of_seven_digits_or_more");
+        if big_number_case(ctx, l1, l2, n) && ctx.rep.violations_total > 30 {
+            return;
+        }
+    }
     let ls: Vec<usize> = if ctx.quick() { vec![0, 1, 5, 1024, 51200] } else { vec![0, 1, 2, 5, 16, 1023, 1024, 1025, 51199, 51200, 51201] };
     for l1 in &ls {
         for l2 in &ls {
@@ -623,6 +689,10 @@ fn server_family(ctx: &mut Ctx) {
 
 pub fn replay(ctx: &mut Ctx, case: &J) {
     ctx.only_case = None;
+    if case.gs("family") == "server-big" {
+        big_number_case(ctx, case.gu("l1") as usize, case.gu("l2") as usize, case.gu("declared") as usize);
+        return;
+    }
     if case.gs("family") == "server" {
         server_case(ctx, case.gu("l1") as usize, case.gu("l2") as usize, case.gu("declared") as usize, case.gu("expect") == 1);
         return;
